@@ -80,7 +80,7 @@ Section WithDigest.
 
   Lemma fstep_calm w p : fstep H (calm_w w) p = (calm_w (fst (step H w p)), snd (step H w p)).
   Proof.
-    destruct p as [v items|o|os|o|d ents|o b m t|o|o|o alg vv|]; try reflexivity.
+    destruct p as [v items|v items|o|os|o|d ents|o b m t|o|o|o alg vv|]; try reflexivity.
     - (* add *)
       unfold fstep, step, fadd, add. cbn [f_w calm_w].
       destruct (match v with Some b => b | None => w_verify w end).
@@ -88,6 +88,10 @@ Section WithDigest.
         rewrite fpost_fold_calm. cbn [snd fst]. rewrite fsave_fold_calm. reflexivity.
       + change (FW w None false) with (calm_w w). rewrite fcopy_fold_calm. cbn [snd fst].
         rewrite fpost_fold_calm. cbn [snd fst]. rewrite fsave_fold_calm. reflexivity.
+    - (* add through a read-only handle *)
+      unfold fstep, step, add_ro. cbn [f_w calm_w].
+      destruct (match v with Some b => b | None => w_verify w end); [|reflexivity].
+      rewrite fpre_fold_calm. reflexivity.
     - unfold fstep, step. rewrite fcheck_calm. reflexivity.
     - unfold fstep, step, foids_exist, oids_exist. cbn [f_w calm_w]. destruct (w_cls w).
       + change (FW w None false) with (calm_w w). rewrite fexist_fold_calm. reflexivity.
